@@ -1,0 +1,22 @@
+//go:build verif
+
+package config
+
+import "time"
+
+// Exports of unexported parsing helpers for the verification harness (build tag verif only).
+
+// VerifParseBoolean exposes parseBoolean.
+func VerifParseBoolean(s string) (bool, error) { return parseBoolean(s) }
+
+// VerifParseDuration exposes parseDuration.
+func VerifParseDuration(s string) (time.Duration, error) { return parseDuration(s) }
+
+// VerifParseETypes exposes parseETypes.
+func VerifParseETypes(s []string, w bool) []int32 { return parseETypes(s, w) }
+
+// VerifAppendUntilFinal exposes appendUntilFinal.
+func VerifAppendUntilFinal(s *[]string, value string, final *bool) { appendUntilFinal(s, value, final) }
+
+// VerifRandServOrder exposes randServOrder.
+func VerifRandServOrder(ks []string) map[int]string { return randServOrder(ks) }
